@@ -46,7 +46,17 @@ META = {
   "the T0 handshake code (server handling of bad premaster / bad ECDH point)",
  ],
  "not_covered": [],
- "mutants_tried": [],
+ "mutants_tried": [
+  "caught: 'if (ctl)' around the copy loop of br_ccopy (src/codec/ccopy.c) -> ccopy-{O0,Os,O2}-L8 'same branch condition ...' + 'same number of observations', natively reproduced (also breaks every entry that calls br_ccopy)",
+  "caught: br_hmac_outCT padded-length km computed from len instead of max_len (src/mac/hmac_ct.c) -> hmac_outCT-Os-stub-50-60 (the sizes where the block count differs: len 50..55 vs 56..60); ~17 min incl. native replay; NOT distinguishable at stub-0-40 / stub-13-77 (same number of blocks for every len), there the query still passes",
+  "caught: early 'if (!good) return 0' after the padding check of cbc_decrypt (src/ssl/ssl_rec_cbc.c) -> cbc_decrypt_md5-Os-RL48-expl (the accept/reject declassification does not hide it: the number of observations differs between two rejected records)",
+  "caught: 'if (data[0] != 0x00) return 0' in br_rsa_ssl_decrypt -> rsa_ssl_decrypt-Os-L64",
+  "caught: 'if (buf[0] != 0) return 0' before the constant-time scan of br_rsa_oaep_unpad -> rsa_oaep_unpad_md5-Os-k36",
+  "caught: table S-box (br_aes_S[] indexed by key bytes) in sub_word of src/symcipher/aes_ct.c -> aes_ct_cbcenc-Os-k16-n32 (address trace differs)",
+  "caught: direct secret-indexed window look-up 'base = t2 + mwlen * bits' in br_i15_modpow_opt (src/int/i15_modpow2.c) -> i15_modpow_opt-Os-b42-w2 (address trace differs)",
+  "caught: memcmp() instead of the OR-accumulating loop in br_gcm_check_tag_trunc (src/aead/gcm.c) -> gcm_check_tag-Os-n20-a7-t16 (~10 min)",
+  "caught: 'if (ctl) a[u] = ...' instead of MUX in br_i15_add -> i15_add-{O0,Os,O2}-b42",
+ ],
 }
 
 # ---------------------------------------------------------------------------
@@ -235,6 +245,9 @@ for _nm in ("i15_montymul", "i15_muladd_small", "i15_modpow_opt", "ccopy", "hmac
     _c["sizes"] = [s for s in _c["sizes"] if s["tier"] == "quick"][:1]
     _c["desc"] = _e["desc"] + " [ESP8266-like config]"
     ENTRIES.append(_c)
+entry("ec_p256_m15_p256_mul", "C08_ecmul.c", ["src/ec/ec_p256_m15.c"] + ECC, ["p256_mul"],
+      [S("x1", 300, XLEN=1, tier="thorough")], opts=("O0", "Os"), real_units=["src/ec/ec_secp256r1.c"] + ECC, timeout=900,
+      desc="ec_p256_m15 p256_mul (window look-up by CCOPY, Jacobian double/add), 1-byte scalar", secret="scalar, point coordinate limbs", public="xlen, addresses")
 # negative controls (reported through extra_checks; they must FAIL)
 entry("aes_big_cbcenc", "C08_sym.c", [SC + "aes_big_enc.c", SC + "aes_big_cbcenc.c", SC + "aes_common.c", "src/codec/enc32be.c", "src/codec/dec32be.c"],
       ["br_aes_big_cbcenc_init", "br_aes_big_cbcenc_run"], [S("k16-n16", 70, FN=20, KL=16, NB=16)], control=True,
